@@ -116,11 +116,10 @@ def query_traversal(node, callback, is_table=False, is_target=False, parent_quer
         node.targets = array
 
         if node.cte is not None:
-            array = []
             for cte in node.cte:
-                node_out = query_traversal(cte.query, callback, parent_query=node) or cte
-                array.append(node_out)
-            node.cte = array
+                node_out = query_traversal(cte.query, callback, parent_query=node)
+                if node_out is not None:
+                    cte.query = node_out
 
         if node.where is not None:
             node_out = query_traversal(node.where, callback, parent_query=node)
